@@ -99,10 +99,12 @@ def pipelines():
     P["BYOLTransform0"] = (lambda: CT.BYOLTransform0(size=8), "pil32")
     P["BYOLTransform1"] = (lambda: CT.BYOLTransform1(size=8), "pil32")
     P["BYOLTransform"] = (lambda: CT.BYOLTransform(size=8, gaussian_blur_p=0.5, solarize_p=0.2), "pil32")
+    P["BYOLTransform.norm"] = (lambda: CT.BYOLTransform(size=8, gaussian_blur_p=0.5, solarize_p=0.2, norm="image_net"), "pil32")
     P["ImagenetMinaugTransform"] = (lambda: CT.ImagenetMinaugTransform(size=8), "pil32")
     P["MAEFinetuneTransform"] = (lambda: CT.MAEFinetuneTransform(), "pil32")
-    P["MUGSStrongGlobalTransform"] = (lambda: CT.MUGSStrongGlobalTransform(size=8), "pil32")
-    P["MUGSStrongLocalTransform"] = (lambda: CT.MUGSStrongLocalTransform(size=8), "pil32")
+    from kappadata.common.transforms.mugs_transforms import MUGSStrongGlobalTransform, MUGSStrongLocalTransform
+    P["MUGSStrongGlobalTransform"] = (lambda: MUGSStrongGlobalTransform(size=8), "pil32")
+    P["MUGSStrongLocalTransform"] = (lambda: MUGSStrongLocalTransform(size=8), "pil32")
     return P
 
 
